@@ -420,6 +420,9 @@ def run(chk):
         sl = [l for l in res if l.startswith("scan msgs=")]
         tb, rc = verdicts(sl[0], len(c["conds"])) if sl else (None, None)
         evals += 1
+        if tb is None and any("696e7465676572206f766572666c6f77" in l for l in res):
+            chk.add("twins_skipped_constant_overflow")    # the compiler rejects an overflowing CONSTANT product; not a verdict
+            continue
         if tb != bits:
             chk.violation("literal-twin", "%s: conditions over externals give %s, the same conditions over literals of the same values give %s" % (cid, bits, tb),
                           {"case": cid, "externals": {NAMES[k]: str(v) for k, v in env.items()}, "literal_rules": tl[2],
